@@ -113,6 +113,11 @@ func r9nano() cuSpec {
 	return cuSpec{Preset: "r9nano", NumSIMD: 4, Slots: 10, VGPRs: 16384, SGPRs: 3200, LDS: 64 * 1024}
 }
 
+func mi300a() cuSpec {
+	// timingconfig/mi300a/builder.go connectCPWithCUs: the only shipped shape with more than 256 VGPRs per lane
+	return cuSpec{Preset: "mi300a", NumSIMD: 4, Slots: 8, VGPRs: 32768, SGPRs: 3200, LDS: 64 * 1024}
+}
+
 func emuLike() cuSpec {
 	// amd/emu/computeunit.go
 	return cuSpec{Preset: "emu", NumSIMD: 1, Slots: -1, VGPRs: -1, SGPRs: -1, LDS: -1}
@@ -121,8 +126,10 @@ func emuLike() cuSpec {
 func genCU(r *vlib.PRNG) cuSpec {
 	var s cuSpec
 	switch r.Intn(10) {
-	case 0, 1, 2, 3:
+	case 0, 1, 2:
 		s = r9nano()
+	case 3:
+		s = mi300a()
 	case 4:
 		s = emuLike()
 	case 5:
@@ -347,6 +354,65 @@ func genScenario(r *vlib.PRNG, idx int) scenario {
 		s.Launches = append(s.Launches, k)
 	}
 	return s
+}
+
+// ---- the shipped CU shapes (seed independent): every admissible demand class
+// on the exact figures the r9nano and mi300a platform builders register with
+// the command processor. One CU, two overlapping launches of more groups than
+// fit; bimodal latencies free about two of three resident groups early, so the
+// CU is filled to refusal, partly freed and refilled many times.
+
+func canonicalShapes() []scenario {
+	var out []scenario
+	vgprs := []int{1, 4, 8, 24, 64, 65, 84, 100, 128, 129, 200, 256, 512}
+	sgprs := []int{16, 32, 96, 102}
+	ldss := []int{0, 1, 32 * 1024, 64 * 1024, 0, 0}
+	wfs := []int{1, 4, 2, 16, 8, 3}
+	for _, shape := range []cuSpec{r9nano(), mi300a()} {
+		shape.InBuf, shape.OutBuf, shape.MaxTake, shape.LatMode, shape.Batch, shape.BatchK = 4, 2, 0, "bimodal", "single", 2
+		// SGPR-limited (3200 / 96 or 112 per wavefront is fewer than the wavefront slots) and LDS-limited with small register demand
+		for xi, x := range [][4]int{{4, 96, 0, 1}, {24, 102, 0, 4}, {8, 102, 1, 1}, {1, 96, 32 * 1024, 2}, {4, 16, 64 * 1024, 16}, {4, 32, 1, 8}} {
+			k := kernelSpec{WG: [3]int{64 * x[3], 1, 1}, VGPR: x[0], SGPR: x[1], LDS: x[2], At: 1}
+			k.Grid = [3]int{k.WG[0] * 90, 1, 1}
+			k2 := k
+			k2.At, k2.Grid = 300, [3]int{k.WG[0] * 40, 1, 1}
+			out = append(out, scenario{Name: fmt.Sprintf("shape-%s-v%d-s%d-l%d-w%d", shape.Preset, x[0], x[1], x[2], x[3]), Seed: uint64(650 + xi),
+				Alg: []string{"round-robin", "greedy", "partition"}[xi%3], NDisp: 2, NCU: 1, CU: shape, DrvInBuf: 2, Launches: []kernelSpec{k, k2}})
+		}
+		for vi, v := range vgprs {
+			for pass := 0; pass < 2; pass++ { // pass 0: one-wavefront groups; pass 1: wavefront counts / SGPR / LDS cycle through their lists
+				w, sg, lds := 1, 16, 0
+				if pass == 1 {
+					w, sg, lds = wfs[vi%len(wfs)], sgprs[vi%len(sgprs)], ldss[vi%len(ldss)]
+				}
+				k := kernelSpec{WG: [3]int{64 * w, 1, 1}, SGPR: sg, VGPR: v, LDS: lds, At: 1}
+				for !fits(shape, k) && w > 1 { // e.g. 16 wavefronts x 200 VGPRs
+					w /= 2
+					k.WG[0] = 64 * w
+				}
+				if !fits(shape, k) {
+					continue // 512 VGPRs on the 256-per-lane shape
+				}
+				// groups: about three times what the CU holds
+				perSIMD := shape.Slots
+				if pv := (shape.VGPRs / 64) / ((v + 3) / 4 * 4); pv < perSIMD {
+					perSIMD = pv
+				}
+				n := 3 * max(1, perSIMD*shape.NumSIMD/w)
+				if lds > 0 {
+					n = min(n, 3*max(1, shape.LDS/((lds+255)/256*256)))
+				}
+				n = min(max(n, 6), 100)
+				k.Grid = [3]int{k.WG[0] * n, 1, 1}
+				k2 := k
+				k2.At = 400
+				k2.Grid[0] = k.WG[0] * max(3, n/2)
+				out = append(out, scenario{Name: fmt.Sprintf("shape-%s-v%d-s%d-l%d-w%d", shape.Preset, v, sg, lds, w), Seed: uint64(700 + vi*2 + pass),
+					Alg: []string{"round-robin", "greedy", "partition"}[(vi+pass)%3], NDisp: 2, NCU: 1, CU: shape, DrvInBuf: 2, Launches: []kernelSpec{k, k2}})
+			}
+		}
+	}
+	return out
 }
 
 // ---- canonical battery (seed independent)
